@@ -3,10 +3,11 @@
    the keep-condition of _get_manifest_for_new_rank, or of the key expressions of _remove_entry /
    handle_sharded_tensor_elasticity changes the generated term and breaks one of these obligations. *)
 From TS Require Import model.Base model.Flatten model.ManifestOps gen.ManifestOpsGen.
+From Coq Require Import ZifyBool.
 
 (* if rank < metadata.world_size *)
 Theorem is_existing_rank_gen_is_model : forall W r, is_existing_rank_gen W r = is_existing_rank W r.
-Proof. intros W r. reflexivity. Qed.
+Proof. intros W r. unfold is_existing_rank_gen, is_existing_rank. lia. Qed.
 
 (* if is_container_entry(entry) or is_fully_replicated_entry(entry): continue *)
 Theorem keep_for_new_rank_gen_is_model : forall e,
